@@ -357,3 +357,10 @@ def nd_kw(**kw):
             continue
         out[key] = v
     return out
+
+
+def path_arg(path, seed):
+    """a file name as str or as pathlib.Path (both documented)"""
+    import pathlib
+
+    return pathlib.Path(path) if int(seed) % 2 else str(path)
